@@ -13,6 +13,8 @@ import shutil
 import subprocess
 import sys
 import tempfile
+
+import numpy as np
 from types import SimpleNamespace
 
 _FUZZ_CHILD = __name__ == '__main__' and '--atheris' in sys.argv
@@ -429,6 +431,42 @@ def expand_row(row):
     return list(row), None
 
 
+@st.composite
+def long_stream_case(draw):
+    """Files of 66 000 - 90 000 data lines (more than any read block) for the tab-separated and the csv sources: every well-formed
+    line enters a mini-batch, in file order."""
+    fmt = draw(st.sampled_from(['tsv', 'csv']))
+    return {'fmt': fmt, 'ncols': draw(st.integers(2, 3)), 'lines': draw(st.integers(66_000, 90_000)), 'm': draw(st.sampled_from([5000, 8192, 20000])),
+            'seed': draw(st.integers(0, 2**32 - 1)), 'bad_every': draw(st.sampled_from([0, 997, 4099])), 'final_newline': draw(st.booleans())}
+
+
+def oracle_long_stream(case, rec):
+    fmt, ncols, m, nlines = case['fmt'], int(case['ncols']), int(case['m']), int(case['lines'])
+    header = header_for(ncols)
+    rng = np.random.Generator(np.random.PCG64(int(case['seed'])))
+    vals = rng.integers(0, 50, size=(nlines, ncols))
+    rows = [[f'r{i}'] + [f'v{int(v)}' for v in vals[i, 1:]] for i in range(nlines)]
+    be = int(case['bad_every'])
+    if be:
+        for i in range(be, nlines, be):
+            rows[i] = rows[i][:-1] if ncols > 1 else rows[i] + ['x']      # a wrong-arity line now and then
+    delim = '\t' if fmt == 'tsv' else ','
+    lines = [delim.join(r) for r in rows]
+    expected = [r for r in rows if len(r) == ncols]
+    expected = expected[:(len(expected) // m) * m + (len(expected) % m if len(expected) % m > 1024 else 0)]
+    rec.nt(True, key=case)
+    rec.cls('long-stream:' + fmt)
+    for source in (('ob-raw-dump',) if fmt == 'tsv' else ('csv-raw',)):
+        captured = stream_batches(lines, header, source, delim, m, case['final_newline'])
+        flat = [r for batch, _ in captured for r in batch]
+        if flat != expected:
+            i = next((k for k, (a, b) in enumerate(zip(flat, expected)) if a != b), min(len(flat), len(expected)))
+            raise Violation(f'{source}: {len(flat)} rows entered mini-batches (sizes {[len(b) for b, _ in captured]}), the file has '
+                            f'{len(expected)} well-formed rows to consume (minibatch_size {m}, {nlines} lines); first difference at row {i}: '
+                            f'got {flat[i] if i < len(flat) else None}, expected {expected[i] if i < len(expected) else None}',
+                            kind='C16/long-stream')
+
+
 class _Logger:
     def info(self, *a, **k):
         pass
@@ -514,7 +552,8 @@ def oracle_arity(case, rec):
 
 
 ORACLES = {'C16/csv-roundtrip': oracle_csv, 'C16/tsv-roundtrip': oracle_tsv, 'C16/vw-roundtrip': oracle_vw,
-           'C16/namespace-map': oracle_nsmap, 'C16/arity-stream-csv': oracle_arity, 'C16/arity-stream-tsv': oracle_arity}
+           'C16/namespace-map': oracle_nsmap, 'C16/arity-stream-csv': oracle_arity, 'C16/arity-stream-tsv': oracle_arity,
+           'C16/long-stream': oracle_long_stream}
 
 
 def run(ctx):
@@ -525,6 +564,7 @@ def run(ctx):
         Clause('C16/namespace-map', nsmap_case, oracle_nsmap, quick=1200, thorough=30000, quick_shards=2),
         Clause('C16/arity-stream-csv', lambda: arity_case('csv'), oracle_arity, quick=750, thorough=20000, quick_shards=3),
         Clause('C16/arity-stream-tsv', lambda: arity_case('tsv'), oracle_arity, quick=600, thorough=20000, quick_shards=2),
+        Clause('C16/long-stream', long_stream_case, oracle_long_stream, quick=2, thorough=24, quick_shards=2, thorough_shards=12),
     ]
     global _BASE
     _BASE = tempfile.mkdtemp(prefix='c16run-', dir='/tmp')
